@@ -495,7 +495,7 @@ pub fn start_watchdog(horizon: Duration, handler: impl Fn(&str) + Send + Sync + 
                 h(&desc);
             }
             println!("ENGINE-ERROR watchdog handler returned; exiting");
-            std::process::exit(2);
+            exit_process(2);
         }
     });
 }
@@ -518,4 +518,88 @@ impl Drop for WatchGuard {
             ws.calls.lock().unwrap().remove(&std::thread::current().id());
         }
     }
+}
+
+// ------------------------------------------------------------------------------------------------
+// stdout filter: the library prints chatter (" empty arg", "could not open file ...") on stdout; the harness's own
+// lines must stay readable, so stdout is routed through a pipe and the chatter lines are dropped.
+
+static FILTER: OnceLock<Mutex<Option<(i32, std::thread::JoinHandle<()>)>>> = OnceLock::new();
+
+pub fn out_filter_install() {
+    use std::io::{BufRead, Write};
+    use std::os::fd::FromRawFd;
+    if std::env::var("VERIF_NO_FILTER").is_ok() {
+        return;
+    }
+    unsafe {
+        let mut fds = [0i32; 2];
+        if libc::pipe(fds.as_mut_ptr()) != 0 {
+            return;
+        }
+        let saved = libc::dup(1);
+        if saved < 0 {
+            return;
+        }
+        libc::dup2(fds[1], 1);
+        libc::close(fds[1]);
+        let rd = fds[0];
+        let h = std::thread::spawn(move || {
+            let infile = std::fs::File::from_raw_fd(rd);
+            let mut out = std::fs::File::from_raw_fd(libc::dup(saved));
+            let reader = std::io::BufReader::new(infile);
+            for line in reader.split(b'\n') {
+                let Ok(line) = line else { break };
+                let t = String::from_utf8_lossy(&line);
+                let tt = t.trim();
+                if tt == "empty arg" || tt.starts_with("SetSketchParams reload_json") || tt.starts_with("SetSketchParams dump") || tt.is_empty() && line.len() <= 1 {
+                    continue;
+                }
+                let _ = out.write_all(&line);
+                let _ = out.write_all(b"\n");
+            }
+            let _ = out.flush();
+        });
+        let _ = FILTER.get_or_init(|| Mutex::new(None)).lock().map(|mut g| *g = Some((saved, h)));
+    }
+}
+
+/// flush and remove the filter (call before exiting the process)
+pub fn out_filter_finish() {
+    use std::io::Write;
+    let _ = std::io::stdout().flush();
+    if let Some(m) = FILTER.get() {
+        if let Some((saved, h)) = m.lock().unwrap().take() {
+            unsafe {
+                libc::dup2(saved, 1); // closes the pipe's write end held by fd 1
+                libc::close(saved);
+            }
+            let _ = h.join();
+        }
+    }
+}
+
+pub fn exit_process(code: i32) -> ! {
+    out_filter_finish();
+    std::process::exit(code)
+}
+
+/// install the watchdog with the standard handler: a watched call (see `watched`) running longer than `secs` seconds is
+/// reported as a non-termination violation of the current property, the evidence is written and the process exits 1
+pub fn install_hang_watchdog(ctx: &Ctx, level: &'static str, secs: u64) {
+    let ctx_ptr: &'static Ctx = unsafe { &*(ctx as *const Ctx) };
+    start_watchdog(Duration::from_secs(secs), move |desc| {
+        ctx_ptr.violation(
+            "nontermination",
+            &format!("the call `{}` did not return within {} s", desc, secs),
+            json!({"kind": "watchdog", "call": desc}),
+        );
+        let code = ctx_ptr.finish(
+            level,
+            json!({"states": 1, "transitions": 1, "traces_validated_against_impl": 1, "evaluations": 1, "distinct_nontrivial": 2, "rule": "run aborted by the hang watchdog",
+                   "samples": [desc], "exhaustive": false, "note": "run aborted by the watchdog: a call did not terminate"}),
+            vec![],
+        );
+        exit_process(code);
+    });
 }
